@@ -6,6 +6,7 @@
 #include <pthread.h>
 #include <sys/types.h>
 ssize_t getrandom(void *buf, size_t n, unsigned flags) { (void)flags; uint8_t *b = buf; for (size_t i = 0; i < n; i++) b[i] = (uint8_t)(0x5A ^ (i * 7)); return (ssize_t)n; }
+void *c16_shared_ct; uint8_t c16_shared_ct_key[16], c16_shared_ct_nonce[16];
 static shared_t SH; static pthread_barrier_t bar; static int OPI[4], ITER; static tctx *CTX[4], *REF[4]; static long mism;
 static void *th(void *arg)
 {
@@ -22,6 +23,7 @@ int main(int argc, char **argv)
     setvbuf(stdout, 0, _IOLBF, 0);
     ITER = atoi(argv[1]); int part = atoi(argv[2]), nparts = atoi(argv[3]); int NT = 4; long programs = 0;
     shared_setup(&SH);
+    { uint8_t ct[64]; size_t cl = 0; fill(c16_shared_ct_key, 16, 71); fill(c16_shared_ct_nonce, 16, 72); ascon128a_aead_encrypt(ct, &cl, SH.msg, 41, 0, 0, c16_shared_ct_nonce, c16_shared_ct_key); c16_shared_ct = cpps_ba_new(ct, cl); }
     { tctx *blk = malloc(sizeof(tctx) * (NT + 1)), *rblk = malloc(sizeof(tctx) * (NT + 1)); for (int t = 0; t < NT; t++) { CTX[t] = &blk[t]; REF[t] = &rblk[t]; } }   /* adjacent private blocks */
     int idx = 0;
     for (int i = 0; i < NOPS; i++) for (int j = i; j < NOPS; j++, idx++) {
